@@ -162,6 +162,18 @@ check("C05", "proof",
       "API operations (length 2-4, both runner classes, dotted names, host functions), each run in a fresh interpreter and "
       "compared with the evaluation alone in a fresh interpreter, are a bounded stand-in that also replays refutations.",
       "contract-based deductive verification: frame/ownership obligations over a logged heap + bounded history replay", "DESIGN.md 4/C05")
+check("C16", "proof",
+      "Contracts cannot quantify over interleavings; they establish the sufficient condition under the documented contract "
+      "(one Environment per thread): thread confinement. Frame obligations from symbolic execution with a heap-write log: "
+      "Environment.__init__ (both runner classes) has only constant, idempotent process-shared effects (recursion limit := "
+      "2500, parser cached for the runner's tree class); Environment.compile parses its own text and writes no class- or "
+      "module-level state; InterpretedRunner.evaluate / Transpiler.evaluate write only to objects created during the call "
+      "(or the transpiler's write-before-read field), touch no module global, shared namespace, class attribute or the "
+      "recursion limit; Activation never writes base_functions; clone() gives deep ownership.",
+      "confinement => serialisability is argued in DESIGN.md, not mechanised; lark parse, logging, re, pendulum zone cache "
+      "assumed re-entrant; a deterministic schedule exploration (1 preemption at every library line event; 2 preemptions on a "
+      "grid; preemption during environment creation) is the bounded stand-in that replays refutations.",
+      "contract-based deductive verification of a sufficient condition (thread confinement via frame obligations) + bounded schedule replay", "DESIGN.md 4/C16")
 _pending = "contracts for this property are not built yet in this revision (work in progress, see DESIGN.md section 8 build order)"
-for _p in ["C03","C04","C06","C07","C16"]:
+for _p in ["C03","C04","C06","C07"]:
     NA[_p] = _pending
